@@ -13,7 +13,7 @@ RULE = ("numerals from the SVG number grammar (sign, integer, fraction, exponent
         "x surrounding whitespace, plus malformed strings (em, ex, bare unit, empty, letters, double sign, lone e); each string goes through the parser, "
         "unitsToUserUnits (reference None / 0 / number), the round trip through userUnitToUnits, and getLength / getLengthInches via a stub document; "
         "floats are compared bit for bit with the rnd53 execution of the model and within 1e-12 relative of the exact factor table; non-trivial = a unit suffix other than px")
-TRUSTED = ["CPython float(str) is correctly rounded and accepts exactly the modelled grammar on the generated strings (inf/nan/underscores are not generated)",
+TRUSTED = ["CPython float(str) is correctly rounded and accepts exactly the modelled grammar on the generated strings; the texts it reads beyond that grammar (inf, nan, underscore-grouped and non-ASCII digits) are generated as malformed texts and must yield None (repaired in 9a4ea9d)",
            "IEEE binary64 multiply/divide = round-to-nearest-even of the exact result (Base/Rnd.v executes it)"]
 ASSUMPTIONS = ["ASCII input strings; finite numerals with |exponent| <= 20"]
 
@@ -21,7 +21,7 @@ UNITS = ["", "px", "in", "mm", "cm", "pt", "pc", "Q", "q", "%"]
 UCODE = {"": 0, "px": 0, "in": 1, "mm": 2, "cm": 3, "pt": 4, "pc": 5, "Q": 6, "q": 6, "%": 7}
 WS = ["", "", " ", "  ", "\t", "\n", " \r\n", "\x0b", "\x0c", "\x1c", "\x1f "]
 BAD = ["", " ", "mm", "px", "%", "12em", "3ex", "1.5 em", "abc", "--5mm", "+-5", "e5", "1e", "1e+", ".", "+.", "5 mm", "5m m", "1,5mm", "0x10", "1.2.3", "5pxx", "12 px", "1e5e5", "5Px", "5MM", "5IN",
-       "auto\nauto", "5\nem", "1\n2mm", "a\nb", "mm\n5", "5\nmm", "1e\n5", "12\r\nem", "5\x0bmm", "1 2"]          # line breaks and other white space inside the text
+       "auto\nauto", "5\nem", "1\n2mm", "a\nb", "mm\n5", "5\nmm", "1e\n5", "12\r\nem", "5\x0bmm", "1 2", "infmm", "nan", "-inf in", "Infinity", "1_0mm", "1_0.5e1_0cm", "\u0663mm", "\uff11\uff12mm", "NaNpx", "inf%"]          # line breaks and other white space inside the text
 
 def _numeral(rng):
     sign = rng.choice(["", "", "+", "-"])
